@@ -341,7 +341,7 @@ func runOnce(s *Scenario, c Component, n int, prefix []int, cut int) []vsched.Ch
 	if v == "" && cut >= 0 && aborted != "" {
 		v = "solo run did not finish: " + aborted
 	}
-	if v == "" && c.Monitor != nil {
+	if v == "" && c.Monitor != nil && vsched.Aborted != "solo-done" {
 		v = c.Monitor(s, h, final, aborted)
 	}
 	if v != "" {
